@@ -74,7 +74,7 @@ def run(pid, tier, seed):
   # histories: the same configuration reached by re-assigning bits/integer on a quantizer that was already built and
   # called with another format (what QAdaptiveActivation does every step) must behave like a fresh one
   hist = [dict(c, hist="reassign") for j, c in enumerate(cfgs)
-          if c["cls"] in ("bits", "relu") and c.get("al_none") and j % 3 == seed % 3]
+          if c["cls"] in ("bits", "relu", "linear") and c.get("al_none") and j % 3 == seed % 3]
   cfgs += hist
   # the library-wide sigmoid mode (set_internal_sigmoid) is read at call time: smooth mode set before construction
   # and after the quantizer was already built and called
